@@ -32,6 +32,18 @@ def _c10_stats(cases, impl):
     return dict(d)
 
 
+def _norm_crash(out):
+    # a process abort / hang of the real code and the model running out of recursion fuel are the
+    # same observation: unbounded recursion
+    if out.startswith(('crash abort', 'crash hang')) or 'fuelOut' in out[:40]:
+        return 'crash unbounded-recursion'
+    if out.startswith('crash panic'):
+        return 'crash panic'
+    if out.startswith('crash'):
+        return 'crash panic'
+    return out
+
+
 def _lay_keys_only(out):
     # implementation trace "@t Kkeys [cp|cr] ... D digest" -> key-list changes only
     if out.startswith(('rej', 'crash', 'unsupported')):
@@ -110,6 +122,7 @@ def _lay_stats(cases, impl):
 def _lay_props(modules, rule, oracle_pass, nontrivial=None, extra_trusted=None, assumptions=None):
     d = {
         'lean_modules': modules, 'expand': True, 'oracle_pass': oracle_pass,
+        'norm_impl': _norm_crash, 'norm_model': _norm_crash,
         'oracle_project': (lambda out: 'ok'),
         'nontrivial': nontrivial or (lambda case, impl: impl.count('@') >= 2),
         'rule': rule, 'stats': _lay_stats, 'describe': _lay_describe, 'shrink_candidates': _lay_shrink,
